@@ -57,7 +57,10 @@ def install_stubs():
         if ex.choose(2, 'internal_compile') == 0:
             ex.ghost['compile'] = 'ok'
             flds = ex.p.ty(ok_ty)['adt']['variants'][0]['fields']
-            vals = [StringV([Frag('opaque', 'G')]) if fl['name'] == 'generated' else VecV([]) for fl in flds]
+            # the compiled text is opaque; it may also be the empty string (a specification without assignments)
+            empty = ex.choose(2, 'generated-empty') == 1
+            ex.ghost['empty'] = empty
+            vals = [StringV([] if empty else [Frag('opaque', 'G')]) if fl['name'] == 'generated' else VecV([]) for fl in flds]
             return Adt(rt, ex.p.variant_index(rt, 'Ok'), [Adt(ok_ty, 0, vals)])
         ex.ghost['compile'] = 'err'
         return Adt(rt, ex.p.variant_index(rt, 'Err'), [Opaque('CompilerError')])
@@ -279,7 +282,8 @@ def job_kernel(prog, chk, which, tier):
                     content = w[2] if w[0] == 'fs::write' else w[1]
                     tags = [c.payload for c in content if isinstance(c, Frag)]
                     want_tag = 'F' if r.ghost.get('formatted') else 'G'
-                    if tags != [want_tag] or len(content) != 1:
+                    want_len = 0 if (want_tag == 'G' and r.ghost.get('empty')) else 1
+                    if tags != [want_tag][:want_len] or len(content) != want_len:
                         problems.append(f"written text is {chars_repr(content)!r} / {tags}, expected exactly the {'formatted' if want_tag == 'F' else 'compiled'} text")
                     if w[0] == 'fs::write':
                         isdir = [t for t in r.io if t[0] == 'is_dir']
@@ -306,6 +310,7 @@ def job_kernel(prog, chk, which, tier):
 
 GOOD = "M DEFINITIONS AUTOMATIC TAGS ::= BEGIN A ::= SEQUENCE { a INTEGER (0..5), b BOOLEAN OPTIONAL } v INTEGER ::= 5 END"
 BAD = "M DEFINITIONS AUTOMATIC TAGS ::= BEGIN A ::= SEQUENCE { a INTEGER (0..5), b BOOLEAN OPTIONAL v INTEGER ::= 5 END"
+EMPTY = "Empty-Module DEFINITIONS AUTOMATIC TAGS ::= BEGIN END"
 
 
 def native_case(runner, backend, state, existing, source):
@@ -348,8 +353,8 @@ def job_native(prog, chk, tier):
     try:
         for backend in ('rasn', 'ts'):
             for state, existing in (('absent', ''), ('existing', 'short'), ('existing', '// stale\n' * 400), ('dir', ''), ('dir-existing', '// stale\n' * 400), ('missing-parent', '')):
-                for good in (True, False):
-                    o = native_case(runner, backend, state, existing, GOOD if good else BAD)
+                for good, src in ((True, GOOD), (False, BAD), (True, EMPTY)):
+                    o = native_case(runner, backend, state, existing, src)
                     chk.res.obligations += 1
                     probs = judge_native(o, state, existing, good)
                     if not probs:
@@ -357,8 +362,8 @@ def job_native(prog, chk, tier):
                         chk.res.diff_ok += 1
                         continue
                     kind = ('longer ' if len(existing) > 1000 else 'shorter ') if existing else ''
-                    chk.violation(f"C20 native {backend} {kind}{state} {'good' if good else 'malformed'} input", '; '.join(probs),
-                                  {'kind': 'compile_file', 'backend': backend, 'state': state, 'existing': existing, 'source': GOOD if good else BAD})
+                    chk.violation(f"C20 native {backend} {kind}{state} {'empty' if src is EMPTY else 'good' if good else 'malformed'} input", '; '.join(probs),
+                                  {'kind': 'compile_file', 'backend': backend, 'state': state, 'existing': existing, 'source': src})
         chk.witness('native destinations exercised', True)
     finally:
         runner.close()
@@ -377,7 +382,7 @@ def replay_file(path):
         o = native_case(runner, rp['backend'], rp['state'], rp['existing'], rp['source'])
     finally:
         runner.close()
-    probs = judge_native(o, rp['state'], rp['existing'], rp['source'] == GOOD)
+    probs = judge_native(o, rp['state'], rp['existing'], rp['source'] != BAD)
     print('result:', o.get('result'), '| problems:', probs)
     print('REPRODUCED' if probs else 'not reproduced')
     return 1 if probs else 0
